@@ -70,6 +70,73 @@ fn write_header(dst: &mut BytesMut, channel: u16) {
     dst.put_u16(channel);
 }
 
+/// Split a transfer into the transfers that fit a frame body of at most
+/// `max_frame_body_size` bytes each, the way [`FrameEncoder`] cuts an oversized
+/// transfer into frames: the first piece keeps every field, the following ones
+/// carry only the handle and the `more` flag.
+///
+/// The session does this before it numbers the transfers, so that every frame on
+/// the wire has a transfer-id of its own (the peer's session counts frames). The
+/// delivery-id is assigned by the session afterwards: room for its widest
+/// encoding is reserved in the first piece.
+pub(crate) fn split_transfer(
+    mut transfer: Transfer,
+    mut payload: Payload,
+    max_frame_body_size: usize,
+) -> Result<Vec<(Transfer, Payload)>, serde_amqp::Error> {
+    use serde_amqp::ser::Serializer;
+
+    fn encoded_len(transfer: &Transfer) -> Result<usize, serde_amqp::Error> {
+        let mut buf = BytesMut::new();
+        let mut serializer = Serializer::from((&mut buf).writer());
+        transfer.serialize(&mut serializer)?;
+        Ok(buf.len())
+    }
+    fn reserved_len(transfer: &Transfer) -> Result<usize, serde_amqp::Error> {
+        if transfer.delivery_tag.is_some() && transfer.delivery_id.is_none() {
+            let mut with_id = transfer.clone();
+            with_id.delivery_id = Some(u32::MAX);
+            encoded_len(&with_id)
+        } else {
+            encoded_len(transfer)
+        }
+    }
+
+    if reserved_len(&transfer)? + payload.len() <= max_frame_body_size {
+        return Ok(vec![(transfer, payload)]);
+    }
+
+    let orig_more = transfer.more;
+    let mut pieces = Vec::new();
+
+    // first piece
+    transfer.more = true;
+    let first_len = reserved_len(&transfer)?;
+    let split_index = max_frame_body_size.saturating_sub(first_len).min(payload.len());
+    let partial = payload.split_to(split_index);
+    pieces.push((transfer.clone(), partial));
+
+    // pieces in the middle
+    transfer.delivery_id = None;
+    transfer.delivery_tag = None;
+    transfer.message_format = None;
+    transfer.settled = None;
+    transfer.rcv_settle_mode = None;
+    let rest_len = encoded_len(&transfer)?;
+    // at least one byte per piece: a frame size too small for the performative is
+    // caught by the encoder, this loop must terminate whatever the limit
+    let split_index = max_frame_body_size.saturating_sub(rest_len).max(1);
+    while rest_len + payload.len() > max_frame_body_size && payload.len() > split_index {
+        let partial = payload.split_to(split_index);
+        pieces.push((transfer.clone(), partial));
+    }
+
+    // last piece
+    transfer.more = orig_more;
+    pieces.push((transfer, payload));
+    Ok(pieces)
+}
+
 impl FrameEncoder {
     pub(crate) fn new(max_frame_size: usize) -> Self {
         Self {
